@@ -459,6 +459,7 @@ def main():
         "tools obey their contracts and are atomic (a failed cp/root leaves no partial file)",
         "branches guarded by absolute paths outside the scratch area (/home/atlas/release_setup.sh, /xaod_calibration_cache, /results, /opt/cms/entrypoint.sh) are decided by the model only, not replayed",
         "combined short flags (-cr) and operands starting with '-' are outside the token model",
+        "-d / -o operands are absolute paths or URLs: a relative operand is resolved by the scripts after their own cd (outside the claim)",
         "bash-subset semantics in vlib/sh/shx.py is trusted; it is validated on every run by replaying sampled symbolic paths against real bash with stub tools (traces_validated_against_impl)"]))
 
 
